@@ -68,6 +68,24 @@ pub unsafe extern "C" fn clock_gettime(clk: libc::clockid_t, ts: *mut libc::time
     libc::syscall(libc::SYS_clock_gettime, clk as libc::c_long, ts) as libc::c_int
 }
 
+/// The stored time of a cache entry as seconds, whatever integer representation the tree under test keeps it in (a
+/// plain integer today; an atomic in a tree that tracks recency from lookups under the read lock - the seeded change
+/// `C16-r5-cache-eviction-...-least-recently` made this harness fail to compile, i.e. exit 2 instead of a verdict).
+trait StoredSecs { fn stored_secs(&self) -> i64; }
+impl StoredSecs for u64 { fn stored_secs(&self) -> i64 { *self as i64 } }
+impl StoredSecs for i64 { fn stored_secs(&self) -> i64 { *self } }
+impl StoredSecs for u128 { fn stored_secs(&self) -> i64 { *self as i64 } }
+impl StoredSecs for u32 { fn stored_secs(&self) -> i64 { *self as i64 } }
+impl StoredSecs for usize { fn stored_secs(&self) -> i64 { *self as i64 } }
+impl StoredSecs for std::sync::atomic::AtomicU64 { fn stored_secs(&self) -> i64 { self.load(std::sync::atomic::Ordering::SeqCst) as i64 } }
+impl StoredSecs for std::sync::atomic::AtomicI64 { fn stored_secs(&self) -> i64 { self.load(std::sync::atomic::Ordering::SeqCst) } }
+impl StoredSecs for std::sync::atomic::AtomicUsize { fn stored_secs(&self) -> i64 { self.load(std::sync::atomic::Ordering::SeqCst) as i64 } }
+impl StoredSecs for std::time::Duration { fn stored_secs(&self) -> i64 { self.as_secs() as i64 } }
+impl StoredSecs for std::time::SystemTime { fn stored_secs(&self) -> i64 { self.duration_since(std::time::UNIX_EPOCH).map(|d| d.as_secs() as i64).unwrap_or(0) } }
+impl<T: StoredSecs> StoredSecs for std::sync::Mutex<T> { fn stored_secs(&self) -> i64 { self.lock().map(|g| g.stored_secs()).unwrap_or(0) } }
+impl<T: StoredSecs + Copy> StoredSecs for std::cell::Cell<T> { fn stored_secs(&self) -> i64 { self.get().stored_secs() } }
+fn secs_of<T: StoredSecs>(x: &T) -> i64 { x.stored_secs() }
+
 fn set_vclock(v: i64) {
     TL_CLOCK.with(|c| c.set(v));
 }
@@ -137,7 +155,7 @@ impl Real {
                     let b = item.data[0];
                     if item.data.iter().all(|x| *x == b) && b as u32 == mid { mid } else { 99 }
                 };
-                let age = now - item.cache_time as i64;
+                let age = now - secs_of(&item.cache_time);
                 let key_ok = item.route == ROUTES[route] && item.host == host;
                 [1, size, if key_ok { id } else { 98 }, if age < 0 { 9999 } else { age as u32 }]
             }
@@ -855,7 +873,7 @@ fn runseq_trace(limit: usize, tl: usize, unit: usize) {
             *seq += 1;
             let route = ROUTES[r as usize];
             let got = catch_unwind(AssertUnwindSafe(|| {
-                cache.get(route, h as usize).map(|i| (i.data.len(), h31(&i.data), i.mime_type.to_string(), i.cache_time as i64, i.route != route || i.host != h as usize))
+                cache.get(route, h as usize).map(|i| (i.data.len(), h31(&i.data), i.mime_type.to_string(), secs_of(&i.cache_time), i.route != route || i.host != h as usize))
             }));
             match got {
                 Ok(res) => {
@@ -944,7 +962,7 @@ fn cmd_calibrate() {
     let (stored, at1, at2) = catch_unwind(|| {
         let mut c = make_cache(10, 1);
         c.set("/x", 0, vec![7; 3], MimeType::TextPlain);
-        let stored = c.get("/x", 0).map(|i| i.cache_time as i64);
+        let stored = c.get("/x", 0).map(|i| secs_of(&i.cache_time));
         set_vclock(BASE + 1);
         let at1 = c.get("/x", 0).is_some();
         set_vclock(BASE + 2);
@@ -1077,7 +1095,7 @@ fn do_get(cache: &RwLock<Cache>, log: &Log, thr: usize, route: &str, host: usize
         }
     };
     let hi = now_secs();
-    let res = r.map(|i| (i.data.len(), h31(&i.data), i.mime_type.to_string(), i.cache_time as i64));
+    let res = r.map(|i| (i.data.len(), h31(&i.data), i.mime_type.to_string(), secs_of(&i.cache_time)));
     let wrong_key = r.map(|i| i.route != route || i.host != host).unwrap_or(false);
     let seq = log.next();
     log.push(seq, event("get", seq, thr, route, host, 0, 0, "", lo, hi, res, log.limit, log.tl, wrong_key as u64));
